@@ -103,6 +103,23 @@ def c19b():
     return S
 
 
+def mig():
+    """the upgrade from 0.4.20 in the middle of a history must change nothing the other properties depend on: the roles of
+    the two native accounts (C08, C09), the halted flag (C10), the fee destination (C11), the oracle (C15), the denoms"""
+    S = []
+    M = {"m": "migrate_from_0_4_20"}
+    for run, tre in ((1, False), (2, True)):
+        S += start(run, treasury="treasury" if tre else "")
+        S += [stake("u1", 100), ack(1), M,
+              rewards(40), ack(2), rewards(40, frm="staker"),              # collector's hook accepted, staker's refused - as before
+              unstake("u1", 50), dt(100), submit(), dt(1000),
+              unstaked(1, 50, frm="collector", limited=False), unstaked(1, 50), withdraw("u1", 1),
+              breaker(), M,                                                # upgraded while halted: still halted
+              stake("u2", 10), rewards(10), unstake("u1", 5), breaker("mon1"),
+              resume(n=126, l=50, r=40), stake("u2", 10), ack(3), feew(1), M, feew(1), rewards(20), ack(4)]
+    return S
+
+
 def kf2():
     """KNOWN FINDING KF2 (exhibited by TLC on spec/mc/KF_rechannel.cfg): UpdateConfig changes the IBC channel while
     transfers sent on the previous channel are unresolved. receive_ack / receive_timeout compare the callback's
@@ -122,7 +139,7 @@ def kf2():
     return S
 
 
-SCEN = {"C09": c09, "C18": c18, "C19": c19, "C19b": c19b, "KF2": kf2}
+SCEN = {"C09": c09, "C18": c18, "C19": c19, "C19b": c19b, "MIG": mig, "KF2": kf2}
 
 if __name__ == "__main__":
     os.makedirs(OUT, exist_ok=True)
